@@ -36,6 +36,9 @@ pub struct E1Run {
     pub shape: String,
     /// allocator calls made inside library calls are scheduling points (sub-node preemption)
     pub alloc_yield: bool,
+    /// short-lived threads created (and joined) before the clients, so that the callers' thread ids,
+    /// thread-local slots and stacks are not always the first ones of the process
+    pub tid_offset: u8,
 }
 
 #[derive(Clone, Debug, PartialEq)]
@@ -138,6 +141,7 @@ impl E1Run {
             "fault": self.fault.as_ref().map(|f| json!({"kind": "emit-fails", "thread": f.thread, "op": f.op, "emit": f.emit})),
             "ambient": self.ambient.to_json(),
             "alloc_yield": self.alloc_yield,
+            "tid_offset": self.tid_offset,
             "schedule_rle": self.schedule.as_ref().map(|s| rle(s)),
         })
     }
@@ -178,6 +182,7 @@ impl E1Run {
             },
             shape: v.get("shape").and_then(|s| s.as_str()).unwrap_or("replay").to_string(),
             alloc_yield: v.get("alloc_yield").and_then(|s| s.as_bool()).unwrap_or(false),
+            tid_offset: v.get("tid_offset").and_then(|s| s.as_u64()).unwrap_or(0) as u8,
         })
     }
     pub fn total_ops(&self) -> usize {
@@ -221,7 +226,7 @@ fn helper_op(rng: &mut Rng, fresh: bool) -> Op {
 /// A family of related operations, shaped so that state leaking from one call to another would show.
 fn family(rng: &mut Rng, corpus: &Corpus, deep_levels: (usize, usize), out: &mut Vec<Op>) -> &'static str {
     let fresh = rng.chance(1, 4);
-    match rng.weighted(&[14, 14, 10, 8, 8, 8, 6, 6, 5, 5, 6, 2, 6]) {
+    match rng.weighted(&[14, 14, 10, 8, 8, 8, 6, 6, 5, 5, 6, 2, 6, 6]) {
         0 => {
             // same rule x different data (corpus rule)
             let (r, d) = rng.pick(&corpus.cases).clone();
@@ -446,6 +451,26 @@ fn family(rng: &mut Rng, corpus: &Corpus, deep_levels: (usize, usize), out: &mut
             }
             "same-operands-different-operators"
         }
+        13 => {
+            // every caller keeps asking for its own dotted path again and again while the others ask
+            // for theirs ("last path" slots, per-thread tags over shared tables)
+            let d = json!({"t0": {"v": 0, "w": [10, 11]}, "t1": {"v": 1, "w": [20, 21]}, "t2": {"v": 2, "w": [30]}, "t3": {"v": 3, "w": []}, "a": {"b": {"c": "deep"}}, "s": "str"});
+            let dt = t(&d);
+            let paths: &[&str] = &["t0.v", "t1.v", "t2.v", "t3.v", "t0.w.1", "t1.w.0", "a.b.c", "a.b", "s.1", "t2.w.-1", "t9.v", "a\\.b"];
+            for _ in 0..rng.range(2, 5) {
+                let p = *rng.pick(paths);
+                let n = rng.range(2, 4);
+                let args: Vec<Value> = (0..n).map(|_| json!({"var": p})).collect();
+                let r = match rng.below(4) {
+                    0 => json!({"cat": args}),
+                    1 => json!({"merge": args}),
+                    2 => json!({"missing": [p, p, p]}),
+                    _ => json!({"and": args}),
+                };
+                out.push(Op::apply(&t(&r), &dt, rng.chance(1, 5)));
+            }
+            "repeated-path-per-caller"
+        }
         _ => {
             // structurally equal values at distinct addresses: same texts, one shared, one fresh
             let (r, d) = rng.pick(&corpus.cases).clone();
@@ -467,8 +492,8 @@ pub struct GenParams {
 impl GenParams {
     pub fn for_tier(tier: &str) -> GenParams {
         match tier {
-            "thorough" => GenParams { deep_levels: (20, 120), max_threads: 4, long_history_pct: 6 },
-            _ => GenParams { deep_levels: (20, 100), max_threads: 4, long_history_pct: 4 },
+            "thorough" => GenParams { deep_levels: (20, 120), max_threads: 6, long_history_pct: 6 },
+            _ => GenParams { deep_levels: (20, 100), max_threads: 6, long_history_pct: 4 },
         }
     }
 }
@@ -478,7 +503,7 @@ pub fn gen_run(seed: u64, params: &GenParams, corpus: &Corpus, oracle: &mut Orac
     let mut rng = Rng::new(seed);
     // --- configuration
     let long_history = rng.chance(params.long_history_pct, 100);
-    let nthreads = if long_history { 1 } else { 1 + rng.weighted(&[25, 35, 25, 15]).min(params.max_threads - 1) };
+    let nthreads = if long_history { 1 } else { 1 + rng.weighted(&[25, 33, 22, 12, 4, 4]).min(params.max_threads - 1) };
     let target_ops = if long_history { rng.range(40, 300) } else { rng.range(nthreads, nthreads * 6) };
     // --- workload
     let mut ops: Vec<Op> = Vec::new();
@@ -556,7 +581,8 @@ pub fn gen_run(seed: u64, params: &GenParams, corpus: &Corpus, oracle: &mut Orac
             }
         }
     };
-    E1Run { seed, threads, stack_kb, strategy, fault, ambient, schedule: None, shape: shapes.join("+"), alloc_yield }
+    let tid_offset = if rng.chance(1, 2) { 0 } else { rng.range(1, 24) as u8 };
+    E1Run { seed, threads, stack_kb, strategy, fault, ambient, schedule: None, shape: shapes.join("+"), alloc_yield, tid_offset }
 }
 
 // ---------------------------------------------------------------------------------------------
@@ -822,6 +848,9 @@ fn child_body(run: &E1Run, isos: &[Vec<Arc<Iso>>], raw_fd: i32) -> RunReport {
     run.ambient.apply();
     let trace_fd = oracle::memfd("run-trace");
     let tracing = trace_to(trace_fd);
+    for _ in 0..run.tid_offset {
+        let _ = std::thread::spawn(|| {}).join();
+    }
     let pool = Arc::new(build_pool(run));
     let chooser = match &run.schedule {
         Some(list) => Chooser::replay(list.clone()),
